@@ -190,3 +190,19 @@ def run_case(case):
     nontrivial = "nt" in labels
     labels.discard("nt")
     return Outcome(True, labels=sorted(labels), nontrivial=nontrivial)
+
+
+# --------------------------------------------------------------------------
+# exhaustive array layer (vlib/arraylayer.py)
+# --------------------------------------------------------------------------
+from vlib import arraylayer  # noqa: E402
+
+EXHAUSTIVE_SCOPE = arraylayer.SCOPE
+
+
+def exhaustive_jobs(tier):
+    return arraylayer.jobs(tier)
+
+
+def run_exhaustive_job(job):
+    return arraylayer.run_job(run_case, job, extra={"writes": [{"li": 1, "via": "view", "int": 3, "float": 2.5, "text": "q"}, {"li": 2, "via": "handle", "int": -1, "float": -0.5, "text": ""}], "grow": 8})
